@@ -248,7 +248,7 @@ func vTypedQuery1WalkMid(W *vWorld, q *vQuerySpec, cached bool, tag string, mid 
 			break
 		}
 	}
-	vcheck(tag+"/unlocked-after-exhaustion", !W.w.IsLocked())
+	vcheck(tag+"/unlocked-after-exhaustion", W.w.IsLocked() == vOuterOpen)
 	n := W.checkVisits(tag, q, &visits, strangers, total)
 	q2 := f.Query()
 	var cnt int
@@ -301,7 +301,7 @@ func vTypedQuery2RelMid(W *vWorld, q *vQuerySpec, cached, perQuery bool, tag str
 	}
 	if perQuery && !ok {
 		vcheck(tag+"/dead-target-rejected", vpanics(func() { f.Query(rel...) }))
-		vcheck(tag+"/rejected-query-holds-no-lock", !W.w.IsLocked())
+		vcheck(tag+"/rejected-query-holds-no-lock", W.w.IsLocked() == vOuterOpen)
 		return
 	}
 	qu := f.Query(rel...)
@@ -322,7 +322,7 @@ func vTypedQuery2RelMid(W *vWorld, q *vQuerySpec, cached, perQuery bool, tag str
 			break
 		}
 	}
-	vcheck(tag+"/unlocked-after-exhaustion", !W.w.IsLocked())
+	vcheck(tag+"/unlocked-after-exhaustion", W.w.IsLocked() == vOuterOpen)
 	n := W.checkVisits(tag, q, &visits, strangers, total)
 	q2 := f.Query(rel...)
 	var cnt int
@@ -365,7 +365,7 @@ func vTypedQuery2TwoTargets(W *vWorld, q *vQuerySpec, cached bool, tag string) {
 	}
 	if !(ok1 && ok2) {
 		vcheck(tag+"/dead-target-rejected", vpanics(func() { f.Query(rel...) }))
-		vcheck(tag+"/rejected-query-holds-no-lock", !W.w.IsLocked())
+		vcheck(tag+"/rejected-query-holds-no-lock", W.w.IsLocked() == vOuterOpen)
 		return
 	}
 	qu := f.Query(rel...)
@@ -389,7 +389,7 @@ func vTypedQuery2TwoTargets(W *vWorld, q *vQuerySpec, cached bool, tag string) {
 			break
 		}
 	}
-	vcheck(tag+"/unlocked-after-exhaustion", !W.w.IsLocked())
+	vcheck(tag+"/unlocked-after-exhaustion", W.w.IsLocked() == vOuterOpen)
 	n := W.checkVisits(tag, q, &visits, strangers, total)
 	q2 := f.Query(rel...)
 	var cnt int
@@ -412,7 +412,7 @@ func vTypedQuery2TwoTargets(W *vWorld, q *vQuerySpec, cached bool, tag string) {
 		vcheck(tag+"/entity-at", want)
 	}
 	q2.Close()
-	vcheck(tag+"/unlocked-after-close", !W.w.IsLocked())
+	vcheck(tag+"/unlocked-after-close", W.w.IsLocked() == vOuterOpen)
 }
 
 func VerifC03_TypedQuery2TwoTargets() {
@@ -700,3 +700,29 @@ func VerifC03_FilterBuilders() {
 	vcheck("modify-after-query-rejected", vpanics(func() { f.With(C[vTag]()) }))
 	vreach("end")
 }
+
+// first use of a filter while other queries are open (nested use; for C13: the state a
+// second goroutine finds): the lazily computed per-filter hints must not depend on the lock
+// vOuterOpen: the walk runs while other queries are open (expected lock state afterwards)
+var vOuterOpen bool
+
+func vNestedFirstUse(kind int) {
+	W := vShapeFor(kind)
+	vOuterOpen = true
+	outerU := NewUnsafeFilter(W.w, W.id[cA]).Query()
+	outerT := NewFilter1[vVel](W.w).Query()
+	outerT.Next()
+	if kind == 0 {
+		vTypedQuery1Walk(W, W.arbQuerySpec(false), false, "nested")
+	} else {
+		vTypedQuery2Rel(W, W.arbQuerySpec(true), false, vPick("per-query", 2) == 1, "nested")
+	}
+	vOuterOpen = false
+	vcheck("outer-queries-still-lock", W.w.IsLocked())
+	outerT.Close()
+	outerU.Close()
+	vcheck("unlocked-after-all-closed", !W.w.IsLocked())
+	vreach("end")
+}
+func VerifC03_NestedFirstUsePlain() { vNestedFirstUse(0) }
+func VerifC03_NestedFirstUseRel()   { vNestedFirstUse(1) }
